@@ -8,12 +8,17 @@ pub fn fix_length(s: &mut String, len: usize) {
         }
     }
 
-    while s.len() > len {
+    // the length is in characters, not UTF-8 bytes (CHR$(128) and above take two bytes)
+    let mut char_count = s.chars().count();
+
+    while char_count > len {
         s.pop();
+        char_count -= 1;
     }
 
-    while s.len() < len {
+    while char_count < len {
         s.push(' ');
+        char_count += 1;
     }
 }
 
